@@ -11,6 +11,10 @@ checks = {
    text="bounded-exhaustive enumeration of all encoder inputs (<=5/6 runes over 15 runes) and decoder inputs (<=5/7 bytes over 16 symbols + UTF-16 unit families) against an independent RFC 3501 codec, and of every (src chunk, dst size) driving of the streaming transformer",
    note="alphabets chosen per branch of the codec; RFC-silent inputs only safety-checked",
    technique="bounded-exhaustive enumeration of inputs and of environment answers (buffer chunkings) on the real code vs reference codec"),
+ "C19": dict(level=EX, design="DESIGN.md §4 C19",
+   text="every ordered pair (and basic triple) of criteria operands over every field incl. unset, NOT, OR, conjunction records: And must match exactly the intersection on a field-separating message universe and must not mutate its operand; every sequence of <=3/4 SEARCH keys (40-key alphabet) sent to a real server connection must hand the backend criteria selecting exactly the messages that satisfy every key",
+   note="independent matcher written from RFC 9051 §6.4.4; day-granular dates; recording stub backend; in-memory connection",
+   technique="bounded-exhaustive enumeration of operand pairs/triples and of key sequences on the real code vs reference matcher"),
  "C20": dict(level=EX, design="DESIGN.md §4 C20",
    text="every (name, pattern, reference, delimiter) up to length 5/6 over {a,b,/,.,*,%} incl. non-ASCII delimiters, MatchList vs an anchored regular expression",
    note="reference resolution rule taken from the package's own table test; regexp package trusted",
